@@ -12,19 +12,22 @@ from ..report import Ctx
 from .common import REPR_MUT, REPR_XO
 
 LEVEL_TEXT = (
-    "Finite-model interpretation of the five representations' variation operators (found through the interfaces; helper "
-    "functions, genotype methods and closures inlined; nothing is executed): (R1) linear one-point crossover is interpreted "
-    "on two 4-gene parents with distinct symbolic genes for every cut 0..4: each child has the parents' length, every locus "
-    "holds one of the two parental genes of that locus, the children are complementary, each child is a prefix of one "
-    "parent followed by a suffix of the other, and some cut mixes both parents; (R2) structured crossover is interpreted "
-    "for the four mask values over two keys: under every key the two children hold the two parents' gene blocks, and "
-    "flipping a key's mask bit swaps them; (R3) point mutation is interpreted for every drawn position (and key, and an "
-    "empty gene list): at most the drawn gene differs, it holds the newly drawn value, gene-list lengths are kept, the "
-    "parent object is unchanged, the position is drawn from [0, length-1]; (R4) every attribute name used to steer tree "
-    "variation (hasattr / getattr strings, gengy_* reads) is defined somewhere in the package - a guard on a never-defined "
-    "attribute is constant and kills a branch; (R5) tree crossover (mutate with donor material, interpreted through "
-    "sa/treemodel.py) returns one of the donor's same-typed subtrees and never synthesises new material. Decides these "
-    "shapes for all parents and seeds within the model sizes."
+    "Finite-model interpretation of the five representations' variation operators (found through the interfaces; "
+    "helper functions, genotype methods and closures inlined; nothing is executed): (R1) linear one-point "
+    "crossover is interpreted on two 4-gene parents with distinct symbolic genes for every cut 0..4: each child "
+    "has the parents' length, every locus holds one of the two parental genes of that locus, the children are "
+    "complementary, each child is a prefix of one parent followed by a suffix of the other, and some cut mixes "
+    "both parents; (R2) structured crossover is interpreted for the four mask values over two keys: under every "
+    "key the two children hold the two parents' gene blocks, and flipping a key's mask bit swaps them; (R3) point"
+    " mutation is interpreted for every drawn position (and key, and an empty gene list): at most the drawn gene "
+    "differs, it holds the newly drawn value, gene-list lengths are kept, the parent object is unchanged and the "
+    "offspring is a different object, the position is drawn from [0, length-1], retry loops around the draw are "
+    "followed (a viability test on the offspring may go either way), and a genotype without any gene list is "
+    "returned as a copy; (R4) every attribute name used to steer tree variation (hasattr / getattr strings, "
+    "gengy_* reads) is defined somewhere in the package - a guard on a never-defined attribute is constant and "
+    "kills a branch; (R5) tree crossover (mutate with donor material, interpreted through sa/treemodel.py) "
+    "returns one of the donor's same-typed subtrees and never synthesises new material. Decides these shapes for "
+    "all parents and seeds within the model sizes."
 )
 
 MUTATE = "geneticengine.representations.tree.treebased:mutate"
